@@ -438,5 +438,14 @@ CHECKS["C19"]["quick"] += [_g2("g_two_cross_dispatch_full_b", _W_CROSS, "A: 1 ac
 CHECKS["C19"]["bounds"] += "; one cross-store dispatch from a callback of A into a full queue of B"
 CHECKS["C19"]["outside"] = "more than two stores; thread-name based coupling (thread names are not modelled); thread-local coupling other than along a call made from a store's own reducer context (all modelled contexts share one OS thread, so a thread-local set by A's loop is also seen by client calls PLACED inside A's loop run); interference through user-supplied shared objects"
 
+_W_EFULLP = "as U-effect-full, with a PRODUCER suspended inside a BlockOnFull dispatch() on the full queue (it holds the dispatch_tx lock and can only go on after the reducer took an item): the effect phase must return without waiting for the queue or for that lock (a wait closes a producer/reducer cycle and is reported as deadlock), leaves the producer's slot alone and submits the effect"
+U_EFULLP = [_ph("u_effect_full_producer_blocked_action_cap1", _W_EFULLP, "Effect::Action, capacity 1"), _ph("u_effect_full_producer_blocked_thunk_cap2", _W_EFULLP, "Thunk, capacity 2")]
+CHECKS["C13"]["quick"] += U_EFULLP[:1]
+CHECKS["C13"]["thorough"] += U_EFULLP[1:]
+CHECKS["C05"]["quick"] += U_EFULLP[:1]
+CHECKS["C05"]["thorough"] += U_EFULLP[1:]
+CHECKS["C13"]["bounds"] += "; (f) the effect phase while a producer is suspended inside dispatch() holding the sender lock on a full queue"
+CHECKS["C05"]["bounds"] += "; the effect phase against a full queue with a producer blocked in dispatch()"
+
 HOOK_COMMITS = ['da8b80e', '8cd617e', '39efd23']
 NOT_APPLICABLE = {}
